@@ -3,6 +3,7 @@ Line-protocol driver + implementation-output checker for the C09 model (`vowner`
 
 Ops (one per line):
   write id=s1 owners=A|B vo=C signers=A|B        (vo=- : no value-owner field)
+  write id=s1 owners=A|B? roll=1 vo=C signers=A  (roll=1 : require_party_rollup; `B?` : optional party)
   delete id=s1 signers=A
   updvo ids=s1|s2 vo=C signers=A
   migrate from=A to=B signers=A
@@ -34,7 +35,7 @@ private def joinOr (xs : List String) (sep : String) : String := if xs.isEmpty t
 
 def showScopeObs (o : ScopeObs) : String :=
   let hs := sortStrs (o.holders.map fun (a, n) => s!"{a}*{n}")
-  s!"{o.id}={boolStr o.exists_};{joinOr (sortStrs o.owners) "|"};{if o.vo = "" then "-" else o.vo};{joinOr hs "|"};{o.supply};{if o.qvo = "" then "-" else o.qvo};{joinOr (sortStrs o.listed) "|"}"
+  s!"{o.id}={boolStr o.exists_};{joinOr (sortStrs o.owners) "|"};{if o.vo = "" then "-" else o.vo};{joinOr hs "|"};{o.supply};{if o.qvo = "" then "-" else o.qvo};{joinOr (sortStrs o.listed) "|"};{boolStr o.rollup}"
 
 def showObs (o : Obs) : String :=
   let gs := sortStrs (o.grants.map fun g => s!"{g.granter}>{g.grantee}:{g.mt.toString}:{g.count}")
@@ -53,11 +54,11 @@ private def parseScopeObs (w : String) : Option ScopeObs :=
   match w.splitOn "=" with
   | [id, rest] =>
     match rest.splitOn ";" with
-    | [ex, owners, vo, holders, supply, qvo, listed] => do
+    | [ex, owners, vo, holders, supply, qvo, listed, roll] => do
       let hs ← (splitList holders).mapM parseHolder
       let sup ← parseInt? supply
       pure { id, exists_ := ex = "1", owners := splitList owners, vo := if vo = "-" then "" else vo, holders := hs, supply := sup,
-             qvo := if qvo = "-" then "" else qvo, listed := splitList listed }
+             qvo := if qvo = "-" then "" else qvo, listed := splitList listed, rollup := roll = "1" }
     | _ => none
   | _ => none
 
@@ -96,10 +97,15 @@ def parseObs (line : String) : Option Obs := do
 private def addrArg (ws : List String) (k : String) : Option Addr :=
   (kv ws k).map fun v => if v = "-" then "" else v
 
+/-- `B?` is the optional party `B` -/
+def parseParty (w : String) : Party :=
+  if w.endsWith "?" then ⟨(w.dropEnd 1).toString, true⟩ else ⟨w, false⟩
+
 def parseOp (ws : List String) : Option Op :=
   match ws with
   | "write" :: rest => do
-    pure (.write (← kv rest "id") (splitList (← kv rest "owners")) (← addrArg rest "vo") (splitList (← kv rest "signers")))
+    pure (.write (← kv rest "id") ((splitList (← kv rest "owners")).map parseParty) ((kv rest "roll").getD "0" = "1")
+      (← addrArg rest "vo") (splitList (← kv rest "signers")))
   | "delete" :: rest => do pure (.delete (← kv rest "id") (splitList (← kv rest "signers")))
   | "updvo" :: rest => do
     pure (.updvo (splitList (← kv rest "ids")) (← addrArg rest "vo") (splitList (← kv rest "signers")))
